@@ -12,7 +12,10 @@ Terms are strings: "_:label", "<iri>", '"lex"', '"lex"@lang', '"lex"^^<datatype>
 Observations (pair): the four verdicts of the implementation
     isomorphic(g1,g2) | to_isomorphic(g1)==to_isomorphic(g2) | graph_digest equal | set(to_canonical_graph(g1))==set(…g2)
   each compared with the verified Lean `isoDecide g1 g2` (or `isoCheck` with the known relabelling for pairs too
-  large for the exponential search), then the three `graph_diff` clauses (model: theorem `diff_clauses` ⇒ all true).
+  large for the exponential search), then the three `graph_diff` clauses (model: theorem `diff_clauses` ⇒ all true),
+  `canon-search-verdict` (exhaustive search model, ≤7 blank nodes) and `canon-refine-verdict` (canonical-graph equality
+  predicted by the colour-refinement model `canonRefine` when its refinement is discrete on both graphs, else by the
+  isomorphism verdict); the public refinement stats of to_canonical_graph are compared with the model as a diagnostic.
 Property oracle (viol): `harness/isoutil.iso` (independent Python search), cross-validated inside every case against
 the Lean driver; a disagreement between the two oracles is a harness error, never a violation.
 """
@@ -63,7 +66,8 @@ ASSUMPTIONS = ["blank nodes do not occur in predicate position (not RDF)",
                "SHA-256 sums used as colour / graph digests do not collide on the generated inputs"]
 TRUSTED = ["harness/c14.py generators, term numbering and canonicalisation", "driverHashes of RV/C14/Search.lean do not collide "
            "on the compared graphs (a collision can only produce `none` or a wrong verdict of the canon op, which is "
-           "cross-checked against isoutil and isoDecide in every case)", "lean/RV/C14/Drive.lean line protocol and "
+           "cross-checked against isoutil and isoDecide in every case)", "sumHash/termHash of RV/C14/Canon.lean do not collide on the compared graphs (a collision can only turn a "
+           "canon-refine-verdict into a disagreement, i.e. a false alarm)", "lean/RV/C14/Drive.lean line protocol and "
            "string interning", "harness/isoutil.py (cross-validated against the verified isoDecide on every case "
            "small enough for the Lean search, and against isoCheck certificates for relabelled pairs)",
            "urllib.parse.urljoin/urlparse on skolem IRIs (contract stated as hypothesis UrlContract in Props.lean)"]
@@ -614,7 +618,10 @@ def gen_hist(rng):
                 if kind == "isub" and rng.random() < 0.3:
                     ts.append(new_triple())      # subtracting an absent triple changes nothing
         if kind == "add":
-            ts = [rng.choice(content) if content and rng.random() < 0.15 else new_triple()]
+            # re-adding a triple that is already there must change nothing; like remove / -=, only triples whose blank
+            # nodes the caller can name (not those of a parsed / inserted document) can be offered
+            known = [t for t in content if not any(is_b(x) and x.startswith("_:p") for x in t)]
+            ts = [rng.choice(known) if known and rng.random() < 0.15 else new_triple()]
         elif kind in ("iadd", "addN"):
             ts = [new_triple() for _ in range(rng.randint(1, 3))]
         elif kind in ("parse", "update"):
@@ -1006,6 +1013,33 @@ def canon_line(g1, g2):
     return f"canon {a} | {b}"
 
 
+def refine_lines(g1, g2):
+    """driver lines for the colour-refinement model (RV/C14/Canon.lean `refineInit`, `canonRefine`): triples are coded
+    with the pair's shared vocabulary and de-duplicated by CODE (equal rdflib terms share a code; the model reads the
+    list as the graph's triples, the store holds each triple once)"""
+    a, b, _ = encode_pair(g1, g2)
+
+    def uniq(txt):
+        ws = txt.split()
+        seen, out = set(), []
+        for k in range(0, len(ws), 3):
+            t = tuple(ws[k:k + 3])
+            if t not in seen:
+                seen.add(t)
+                out.extend(t)
+        return " ".join(out)
+    a, b = uniq(a), uniq(b)
+    return [f"canonrefine {a} | {b}"]
+
+
+def refine_stats_obs(st):
+    """PUBLIC observable of the initial refinement: the `stats` dict of to_canonical_graph / graph_digest
+    (number of colours after the initial `_refine` minus the ground neighbours = number of blank-node cells;
+    `individuations` == 0 <=> the refined colouring was already discrete, no search)"""
+    cells = int(st.get("initial_color_count", 0)) - int(st.get("adjacent_nodes", 0))
+    return cells, int(st.get("individuations", 0)) == 0
+
+
 def pair_model_line(case):
     g1, g2 = case["g1"], case["g2"]
     if small(g1, g2):
@@ -1020,7 +1054,8 @@ def model_lines(case):
         l = pair_model_line(case)
         if not l:
             return []
-        return [l, "diff"] + ([canon_line(case["g1"], case["g2"])] if canon_ok(case["g1"], case["g2"]) else [])
+        return ([l, "diff"] + ([canon_line(case["g1"], case["g2"])] if canon_ok(case["g1"], case["g2"]) else [])
+                + refine_lines(case["g1"], case["g2"]))
     if case["kind"] == "skolem":
         return [] if k2_case(case) else [skolem_line(case)]
     if case["kind"] == "exh":
@@ -1042,7 +1077,12 @@ def select_model_obs(case, out):
     if case["kind"] == "pair":
         if not out:
             return []
-        return [out[0]] * 4 + ["diff " + out[1]] + (["canon-search-verdict " + out[2]] if len(out) > 2 else [])
+        n = 3 if canon_ok(case["g1"], case["g2"]) else 2
+        # equality of the two canonical graphs as predicted by the model: by `canonRefine` (labels from the refined
+        # colour hashes, theorems canon_complete_partial / canon_sound_partial) when the model's refinement is discrete
+        # on both graphs, otherwise (driver answers n/a) by the verified isomorphism verdict (theorem canon_decides)
+        return ([out[0]] * 4 + ["diff " + out[1]] + (["canon-search-verdict " + out[2]] if n == 3 else [])
+                + ["canon-refine-verdict " + (out[n] if out[n] != "n/a" else out[0])])
     if case["kind"] == "skolem":
         return ["skolem-roundtrip-iso " + out[0]] if out else []
     if case["kind"] == "hist":
@@ -1129,7 +1169,7 @@ def call(viol, tag, fn, *a):
     return False, None
 
 
-def refine_probe(triples, stats):
+def refine_probe(triples, stats, public=None):
     """DIAGNOSTIC ONLY (never a verdict, private API): partition of the blank nodes after rdflib's initial colour
     refinement vs the partition computed by the Lean transcription RV/C14/Canon.lean (`refine` op of the driver)."""
     try:
@@ -1148,9 +1188,26 @@ def refine_probe(triples, stats):
         if k not in voc:
             voc[k] = len(voc)
         return 2 * voc[k] + (1 if is_b(x) else 0)
-    line = "refine " + " ".join(str(code(x)) for t in triples for x in t)
+    codes, seen = [], set()
+    for t in triples:
+        ct = tuple(code(x) for x in t)
+        if ct not in seen:   # equal rdflib terms share a code: the store holds the triple once
+            seen.add(ct)
+            codes.extend(ct)
+    line = "refine " + " ".join(str(c) for c in codes)
     exe = os.path.join(core.LEAN, ".lake", "build", "bin", DRIVER)
-    out = subprocess.run([exe], input=line + "\n", stdout=subprocess.PIPE, text=True, timeout=60, cwd=core.LEAN).stdout.strip()
+    outs = subprocess.run([exe], input=line + "\n" + line.replace("refine", "refinestat", 1) + "\n", stdout=subprocess.PIPE,
+                          text=True, timeout=60, cwd=core.LEAN).stdout.split("\n")
+    out = outs[0].strip()
+    if public is not None and len(outs) > 1:
+        # DIAGNOSTIC: the PUBLIC stats of to_canonical_graph (number of blank-node colours after the initial _refine,
+        # search needed or not) vs the model.  Not a verdict: `_refine` ends by merging colours whose hashes are equal,
+        # and a child colour that received no new item has its parent's hash, so with other hash VALUES (the model's
+        # hashes are not SHA-256) the splitters are popped in another order and such a merge may hit other colours;
+        # the count after the merge is therefore hash-dependent (false alarm on seed 2, see design.d/C14.md)
+        k, dis = refine_stats_obs(public)
+        key2 = "refine_stats_agree" if outs[1].strip() == "cells=%d discrete=%s" % (k, b2s(dis)) else "refine_stats_differ"
+        stats[key2] = stats.get(key2, 0) + 1
     rev = {v: k for k, v in voc.items()}
     model = sorted(sorted(rev[int(i)] for i in cl.split(",")) for cl in out.split(" | ")) if out and out != "bad-op" else []
     key = "refine_probe_agree" if model == impl else "refine_probe_differ"
@@ -1214,7 +1271,8 @@ def run_pair(case):
         ok4, r_dig = call(viol, "graph_digest", lambda: to_isomorphic(g1).graph_digest() == to_isomorphic(g2).graph_digest()) if ok else (False, None)
     else:
         ok4, r_dig = ok3, r_eq
-    ok5, cgs = call(viol, "to_canonical_graph", lambda: (set(to_canonical_graph(g1)), set(to_canonical_graph(g2)))) if ok else (False, None)
+    st1, st2 = {}, {}
+    ok5, cgs = call(viol, "to_canonical_graph", lambda: (set(to_canonical_graph(g1, stats=st1)), set(to_canonical_graph(g2, stats=st2)))) if ok else (False, None)
     ok6, diff = call(viol, "graph_diff", lambda: tuple(set(x) for x in graph_diff(g1, g2))) if ok else (False, None)
     if not (ok and ok2 and ok3 and ok4 and ok5 and ok6):
         return {"obs": [], "viol": viol, "nontrivial": True, "key": "abort", "stats": stats}
@@ -1269,7 +1327,13 @@ def run_pair(case):
         obs = [b2s(r_iso), b2s(r_eq), b2s(r_dig), b2s(r_can), "diff %s %s %s" % (b2s(d1), b2s(d2), b2s(d3))]
         if canon_ok(g1s, g2s):
             obs.append("canon-search-verdict " + b2s(r_can))
-    refine_probe(g1s, stats)
+        # the colour-refinement model, through the public `stats` of to_canonical_graph
+        (k1, dis1), (k2, dis2) = refine_stats_obs(st1), refine_stats_obs(st2)
+        obs.append("canon-refine-verdict " + b2s(r_can))
+        stats["refine_discrete_graphs"] = int(dis1) + int(dis2)
+        if dis1 and dis2:
+            stats["canon_refine_verdicts_both_discrete"] = 1
+    refine_probe(g1s, stats, st1)
     prof = (profile(g1s), profile(g2s))
     nontrivial = any(c > 1 for pr in prof for c in pr)
     if nontrivial:
